@@ -1555,12 +1555,18 @@ class VacancyMediated(object):
             G2rot = np.dot(np.linalg.inv(np.eye(nom2) + np.dot(G1rot, np.diag(om2eig))), G1rot)
             om2rot = np.diag(om2eig[0:nnull])
             # in the non-null subspace, replace with (g^-1+w)^-1-w^-1 = -(w+wgw)^-1:
-            G2rot[0:nnull, 0:nnull] = -np.linalg.inv(om2rot + np.dot(om2rot,
-                                                                     np.dot(G1rot[0:nnull,0:nnull],
-                                                                            om2rot)))
+            Krot = np.linalg.inv(om2rot + np.dot(om2rot, np.dot(G1rot[0:nnull,0:nnull], om2rot)))  # (w+wgw)^-1
+            G2rot[0:nnull, 0:nnull] = -Krot
+            # blocks involving the null space of omega2, from the same identity (the general update above
+            # obtains these O(1/omega2) blocks by cancellation): (g^-1+w)^-1 = g - g w (w+wgw)^-1 w g
+            wKw = np.dot(om2rot, np.dot(Krot, om2rot))
+            G2rot[0:nnull, nnull:] = np.dot(Krot, np.dot(om2rot, G1rot[0:nnull, nnull:]))
+            G2rot[nnull:, 0:nnull] = G2rot[0:nnull, nnull:].T
+            G2rot[nnull:, nnull:] = G1rot[nnull:, nnull:] - np.dot(G1rot[nnull:, 0:nnull], np.dot(wKw, G1rot[0:nnull, nnull:]))
             Greplace = np.dot(om2vec, np.dot(G2rot, om2vec.T))  # transform back
             om2_inv = np.linalg.pinv(om2_slice)  # only used here for testing purposes...
             # update with omega2, and then put in change due to omega2
+            Gpre = G
             G = np.dot(np.linalg.inv(np.eye(self.vkinetic.Nvstars) + np.dot(G, om2)), G)
             Gfull = G.copy()
             for ni, i in enumerate(om2_sv_indices):
@@ -1587,16 +1593,24 @@ class VacancyMediated(object):
         if not use_large_om2:
             etaVvec, etaSvec = np.dot(G, biasVvec), np.dot(G, biasSvec)
         else:
-            # The omega2 block of G is O(1/omega2^2) on the non-null space of omega2 but O(1) on its null space,
-            # while the bias vectors are O(omega2) and orthogonal to that null space. Contract that block in the
-            # eigenbasis of omega2, where O(omega2) terms do not have to cancel (they fail to cancel to working
-            # precision when exchanges connect different Wyckoff sets, so that the null vectors mix vector stars).
-            Gouter = G.copy()
-            for i in om2_sv_indices:
-                Gouter[i, om2_sv_indices] = 0
-            etaVvec, etaSvec = np.dot(Gouter, biasVvec), np.dot(Gouter, biasSvec)
+            # G = (g^-1 + omega2)^-1 with omega2 acting on the block A = om2_sv_indices only (g = GF before the
+            # omega2 update). In the eigenbasis of omega2, G_AA is G2rot plus 1/omega2 on the non-null space (the
+            # part that was split off above); the blocks coupling A to the rest (B) are O(1/omega2), while the bias
+            # vectors are O(omega2) in A and orthogonal to the null space of omega2. Multiplying explicit blocks
+            # needs O(omega2) terms to cancel; instead apply G_AA in the eigenbasis and use
+            #   G_AB = G_AA g_AA^-1 g_AB,  G_BA = g_BA g_AA^-1 G_AA,  G_BB = g_BB - g_BA g_AA^-1 (g_AB - G_AB)
+            A = om2_sv_indices
+            B = [n for n in range(self.vkinetic.Nvstars) if n not in A]
+            gAB, gBA, gBB = Gpre[A, :][:, B], Gpre[B, :][:, A], Gpre[B, :][:, B]
+            om2inv_rot = np.zeros(nom2)
+            om2inv_rot[0:nnull] = 1. / om2eig[0:nnull]
+            GAAsplit = lambda b: np.dot(om2vec, np.dot(G2rot, np.dot(om2vec.T, b)))  # without the 1/omega2 part
+            GAAfull = lambda b: GAAsplit(b) + np.dot(om2vec, om2inv_rot * np.dot(om2vec.T, b))
+            etaVvec, etaSvec = np.zeros(self.vkinetic.Nvstars), np.zeros(self.vkinetic.Nvstars)
             for eta, bias in ((etaVvec, biasVvec), (etaSvec, biasSvec)):
-                eta[om2_sv_indices] += np.dot(om2vec, np.dot(G2rot, np.dot(om2vec.T, bias[om2_sv_indices])))
+                XbB = np.linalg.solve(G1, np.dot(gAB, bias[B]))
+                eta[A] = GAAsplit(bias[A]) + GAAfull(XbB)
+                eta[B] = np.dot(gBA, np.linalg.solve(G1, GAAfull(bias[A] + XbB))) + np.dot(gBB, bias[B]) - np.dot(gBA, XbB)
         outer_etaVvec, outer_etaSvec = np.dot(self.vkinetic.outer, etaVvec), np.dot(self.vkinetic.outer, etaSvec)
 
         L1ss = np.dot(outer_etaSvec, biasSvec) / self.N
